@@ -584,6 +584,30 @@ def handleMore (op : String) (args : List String) (impl : Impl) : Option Ans :=
     pure { model := m, spec := sp, cls := tagD1 [step],
            branch := "series:" ++ (if incl then "incl" else "excl") ++ ":" ++ start.ts.name ++ "," ++ endTs.name ++ ":" ++
              (if !fitsAll then "saturating" else if vD % vs == 0 then "multiple" else "non_multiple") ++ (if n == 0 then ":empty" else if n ≥ cap then ":capped" else "") }
+  | "tsiter", [_incl, _start, _span, _endTs, _step, k, method, j] => do
+    -- C15 through the Iterator protocol (spec only): after k forward steps each method std derives from next() reads what
+    -- the full forward listing (second observable; its content is the subject of the series op) says
+    let k ← k.toNat?; let j ← j.toNat?
+    let sp := match impl with
+      | .ok [got, full] =>
+        let fl := if full == "-" then [] else full.splitOn ","
+        let rest := fl.drop k
+        let rec every (l : List String) (n : Nat) (fuel : Nat) : List String := match fuel, l with
+          | 0, _ => []
+          | _, [] => []
+          | f + 1, x :: xs => x :: every (xs.drop (n - 1)) n f
+        let want : List String := match method with
+          | "last" | "max" => rest.getLast?.toList
+          | "min" => rest.head?.toList
+          | "count" => [toString rest.length]
+          | "nth" => (rest.drop j).head?.toList
+          | "step_by" => every rest (j + 1) rest.length
+          | "skip_take" => (rest.drop j).take 3
+          | _ => rest
+        verdict [("reads_the_listed_series", got == (if want.isEmpty then "-" else ",".intercalate want))]
+      | .other w => "FAIL:" ++ w
+      | _ => "FAIL:decode"
+    pure { model := "-", spec := sp, branch := "tsiter:" ++ method }
   | "series_long", [incl, start, span, endTs, step] => do
     -- millions of items: count, last item, strict increase (the model iterates too, keeping no list)
     let start ← parseEp? start; let span ← parseDur? span; let endTs ← TS.ofString? endTs
